@@ -328,6 +328,17 @@ class OscFuncBothMessageMatcher(AbstractMessageMatcher):
             fn.value(self.func, msg, time, addr, recv_port)
 
 
+class OscFuncPlainMessageMatcher(AbstractMessageMatcher):
+    # No filter. A distinct object per responder, so that list.remove()
+    # and list.index() in the dispatcher find this responder's own entry
+    # even when two responders share one function object.
+    def __init__(self, func):
+        self.func = func
+
+    def __call__(self, msg, time, addr, recv_port):
+        fn.value(self.func, msg, time, addr, recv_port)
+
+
 class OscArgsMatcher(AbstractMessageMatcher):
     def __init__(self, arg_template, func):
         self.arg_template = utl.as_list(arg_template)
@@ -367,7 +378,7 @@ class OscMessageDispatcher(AbstractWrappingDispatcher):
         elif recv_port is not None:
             return OscFuncRecvPortMessageMatcher(recv_port, func)
         else:
-            return func
+            return OscFuncPlainMessageMatcher(func)
 
     def get_keys_for_func_proxy(self, func_proxy):
         return [func_proxy.path]
